@@ -157,7 +157,7 @@ fn stop_points(ctx: &Ctx, scope: &str, what: &str, f: &[u8], base: &Io, body: Op
 }
 
 fn small_block(ctx: &Ctx) {
-    let scen = small_scenarios(ctx.tier.pick(5, 6), 3);
+    let scen = small_scenarios(ctx.tier.pick(5, 7), 3);
     par_for(scen.len(), crate::util::ncpu(), |i| {
         let (c, aad, len, chunking) = &scen[i];
         let mut rng = Rng::fork(ctx.seed, &format!("C04-small-{}", i));
@@ -191,7 +191,7 @@ fn small_block(ctx: &Ctx) {
 }
 
 fn production_block(ctx: &Ctx) {
-    let rounds = ctx.tier.pick(3, 10);
+    let rounds = ctx.tier.pick(3, 30);
     par_for(rounds, crate::util::ncpu(), |round| {
         let mut rng = Rng::fork(ctx.seed, &format!("C04-prod-{}", round));
         let w = KeyWorld::new(&mut rng);
@@ -282,6 +282,12 @@ fn cli_block(ctx: &Ctx) {
     for (ci, (name, bytes, prefix_len, ok)) in cases.iter().enumerate() {
         let inp = wd.write(&format!("in{}.ktl", ci), bytes);
         let outp = wd.file(&format!("out{}.bin", ci));
+        // every other case: the destination already holds a longer, unrelated file (nothing of it may survive)
+        let stale: Vec<u8> = (0..pt.len() + 50_000).map(|i| (i % 253) as u8 ^ 0x5a).collect();
+        let prefilled = ci % 2 == 1;
+        if prefilled {
+            std::fs::write(&outp, &stale).unwrap();
+        }
         let o = Cmd::new(&wd.path, &["decrypt", inp.to_str().unwrap(), "-t", "bob", "-o", outp.to_str().unwrap(), "-k", "kr.txt", "--env-pass"]).pass("bpw").run();
         ctx.eval();
         let got = std::fs::read(&outp).unwrap_or_default();
@@ -293,6 +299,14 @@ fn cli_block(ctx: &Ctx) {
         let want_exit = if *ok { Exit::Code(0) } else { Exit::Code(1) };
         if o.exit != want_exit {
             ctx.violation(&format!("C04:cli:wrong-exit-status:{}", if *ok { "valid" } else { "corrupted" }), case());
+        } else if prefilled && *prefix_len == 0 && !*ok {
+            // nothing was authenticated, so nothing may be written: the old file must still be there untouched (cf. C13)
+            if got != stale {
+                ctx.violation("C04:cli:existing-destination-altered-although-nothing-was-authenticated", case());
+            } else {
+                ctx.seen(&format!("cli: {} -> {} and the existing destination is untouched", name, o.exit.describe()));
+                ctx.distinct(&format!("cli|{}", name));
+            }
         } else if got != pt[..*prefix_len] {
             ctx.violation("C04:cli:output-file-is-not-the-authenticated-prefix", case());
         } else {
